@@ -257,6 +257,21 @@ def edge_dist(seq):
     return fkmnl.edge_distance(seq)
 
 
+_ALONE = {}
+
+
+def inadmissible_point(b):
+    """does some point of the batch spec `b` raise when it is assessed alone?"""
+    kb = key(b)
+    if kb not in _ALONE:
+        G = b['G']
+        singles = [{'seq': times(b['seq'], r), 'ratios': None, 'G': G[k] if isinstance(G, list) else G, 'params': b['params']}
+                   for k, r in enumerate(b['ratios'])]
+        outs = fkmnl.run_jobs([('assess', sp) for sp in singles])
+        _ALONE[kb] = any('error' in o and not o['error'].startswith('worker') for o in outs)
+    return _ALONE[kb]
+
+
 def judge(item, sums):
     """-> (list of (what, measure, detail), rejected?)   measure in RAM_life / RAJ_life / RAM_inf / RAJ_inf / ..."""
     errs = ['error' in s for s in sums]
@@ -266,6 +281,10 @@ def judge(item, sums):
     if any(errs):
         # the implementation accepts one side of the relation and raises on the other: for batch / refine / scale (c >= 1 keeps every
         # load inside the table that is scaled along) both sides are equally admissible inputs
+        if k == 'scale' and not errs[0]:
+            return [], True      # the larger loads leave what the implementation accepts (notch-law solver beyond the limit load): no lifetime to compare
+        if k == 'batch' and not errs[0] and inadmissible_point(item['specs'][1]):
+            return [], True      # some point of the batch is rejected when assessed alone as well: the call as a whole is not an admissible input
         if k in ('batch', 'refine', 'scale'):
             return [(W_ERR, 'call', {'errors': [s.get('error') for s in sums]})], False
         return [], True
